@@ -74,15 +74,16 @@ Cats(dataOK, evictOK) ==
     ELSE (IF dataOK /\ (Racy \/ EntsMatch) THEN {} ELSE {"data"})
          \cup (IF Racy \/ (CountersMatch /\ (QuiescentNext => FilesMatch)) THEN {} ELSE {"counters"})
 
-Consume(dataOK, evictOK) ==
+Consume3(dataOK, evictOK, freshOK) ==
     /\ l' = l + 1
-    /\ LET c == Cats(dataOK, evictOK)
+    /\ LET c == Cats(dataOK, evictOK) \cup (IF freshOK THEN {} ELSE {"fresh"})
        IN bad' = IF bad.line = 0 /\ c # {}
                  THEN [line |-> l, cats |-> c, m_entries |-> entries', m_bytes |-> bytes', m_count |-> count',
                        m_lastEv |-> lastEv', m_jan |-> jan', m_lock |-> lock']
                  ELSE bad
     /\ TLCSet(1, [l |-> l + 1, bad |-> bad'])
 
+Consume(dataOK, evictOK) == Consume3(dataOK, evictOK, TRUE)
 Skip == /\ l' = l + 1 /\ UNCHANGED <<vars, bad>> /\ TLCSet(1, [l |-> l + 1, bad |-> bad])
 
 -----------------------------------------------------------------------------
@@ -175,12 +176,13 @@ TGet ==
     /\ GetBody(Line.p, Line.k)
     /\ LET e == entries[Line.k]
            modelHit == e.present /\ ~(IsFile /\ path[Line.k] = 0)
-       IN Consume(IF Res = "hit"
-                  THEN /\ modelHit
-                       /\ Line.size = e.size /\ Line.ov = e.ver /\ Line.ok = Line.k /\ Line.on = e.size
-                       /\ Line.stale = e.exp
-                       /\ Line.h > 0 /\ handles'[Line.h].open /\ ~handles[Line.h].open
-                  ELSE ~modelHit, TRUE)
+       IN Consume3(IF Res = "hit"
+                   THEN /\ modelHit
+                        /\ Line.size = e.size /\ Line.ov = e.ver /\ Line.ok = Line.k /\ Line.on = e.size
+                        /\ Line.h > 0 /\ handles'[Line.h].open /\ ~handles[Line.h].open
+                   ELSE ~modelHit, TRUE,
+                   \* the lookup reports the entry stale exactly if its lifetime has elapsed (C03)
+                   Res = "hit" /\ modelHit => Line.stale = e.exp)
 
 \* a hit while every handle slot of the driver is taken: the driver closed the handle at once
 TGetNoSlot ==
@@ -191,8 +193,8 @@ TGetNoSlot ==
     /\ clock' = Tick
     /\ UNCHANGED <<path, objs, bytes, count, dead, lock, op, handles, nextVer, jan, limit, lastEv>>
     /\ LET e == entries[Line.k]
-       IN Consume(/\ Line.size = e.size /\ Line.ov = e.ver /\ Line.ok = Line.k /\ Line.on = e.size
-                  /\ Line.stale = e.exp, TRUE)
+       IN Consume3(/\ Line.size = e.size /\ Line.ov = e.ver /\ Line.ok = Line.k /\ Line.on = e.size, TRUE,
+                   Line.stale = e.exp)
 
 \* the real code reported a hit although no handle slot was free in the driver / model: cannot happen
 \* for generated schedules; treated as not explainable.
